@@ -16,6 +16,9 @@ pub enum Op {
     IsExhausted,
     /// next_frames().nth(k): consumes k+1 frames of the batch (or all of it) and yields the last one
     NextFramesNth(usize),
+    /// next_frames().count() / .last(): consumes the whole batch
+    NextFramesCount,
+    NextFramesLast,
 }
 
 #[derive(Clone, Debug, Serialize, Deserialize)]
@@ -101,6 +104,25 @@ fn run_typed<F: Coded>(c: &Case, st: &mut Stats) -> CheckResult {
                 }
             }
             Op::IsExhausted => {}
+            Op::NextFramesCount | Op::NextFramesLast => {
+                if q.is_empty() {
+                    refill(&mut q, &mut src_pos);
+                }
+                let avail = q.len();
+                let last = q.back().copied();
+                q.clear();
+                if matches!(op, Op::NextFramesCount) {
+                    let got = buffered.next_frames().count();
+                    ensure!(got == avail, "op #{} next_frames().count() = {}, the batch held {} frames", k, got, avail);
+                } else {
+                    let got = buffered.next_frames().last();
+                    match (got, last) {
+                        (Some(g), Some(e)) => ensure!(same(g, e), "op #{} next_frames().last() = {:?} (frame {:?}), expected stream element {:?}", k, g, g.decode(), e),
+                        (None, None) => {}
+                        (g, e) => return Err(format!("op #{} next_frames().last() gave {:?}, model {:?}", k, g, e)),
+                    }
+                }
+            }
             Op::NextFramesNth(kth) => {
                 if q.is_empty() {
                     refill(&mut q, &mut src_pos);
@@ -176,6 +198,7 @@ fn all_op_strings(len: usize, cap: usize) -> Vec<Vec<Op>> {
     }
     alphabet.push(Op::NextFramesNth(0));
     alphabet.push(Op::NextFramesNth(cap / 2 + 1));
+    alphabet.push(Op::NextFramesCount);
     let mut out: Vec<Vec<Op>> = vec![vec![]];
     for _ in 0..len {
         let mut next = Vec::new();
@@ -198,7 +221,7 @@ pub fn case_strategy() -> impl Strategy<Value = Case> {
             0..=cap,
             prop_oneof![1 => Just(None), 3 => (0u64..200).prop_map(Some)],
             any::<bool>(),
-            proptest::collection::vec(prop_oneof![4 => Just(Op::Next), 3 => (0..=cap + 1).prop_map(Op::NextFrames), 1 => Just(Op::IsExhausted), 1 => (0..=cap + 1).prop_map(Op::NextFramesNth)], 0..120),
+            proptest::collection::vec(prop_oneof![4 => Just(Op::Next), 3 => (0..=cap + 1).prop_map(Op::NextFrames), 1 => Just(Op::IsExhausted), 1 => (0..=cap + 1).prop_map(Op::NextFramesNth), 1 => Just(Op::NextFramesCount), 1 => Just(Op::NextFramesLast)], 0..120),
             any::<bool>(),
             prop_oneof![2 => Just(0u64), 1 => 1u64..12],
         )
